@@ -4,6 +4,7 @@ import (
 	"crypto/elliptic"
 	"fmt"
 	"math/big"
+	"os"
 	"time"
 
 	"github.com/markkurossi/mpc/circuit"
@@ -520,8 +521,24 @@ func clipStrings(in []string) []string {
 func c04Stream(cs *vrt.Case, r *vrt.Rng) {
 	p := c04StreamPrograms[(cs.Idx/6)%len(c04StreamPrograms)]
 	gIn, eIn := p.gIn(r), p.eIn(r)
-	o := runStream(r, p.src, nil, gIn, eIn, yaoOpts{ot: (cs.Idx / 6) % 3, kind: 2, record: true, stallWin: 30 * time.Second})
-	desc := map[string]any{"mode": "streaming", "program": (cs.Idx / 6) % len(c04StreamPrograms), "ot": o.otName, "g": clipStrings(gIn), "e": clipStrings(eIn)}
+	src, srcName := p.src, ""
+	var progDesc any = (cs.Idx / 6) % len(c04StreamPrograms)
+	if cs.Idx%12 == 9 || cs.Idx%12 == 4 {
+		// a program around a harness-generated native circuit file (all five
+		// gate types, outputs that feed later gates), see c05NativeProgram
+		dir, file, nsrc, g, e, err := c05NativeProgram(r)
+		if dir != "" {
+			defer os.RemoveAll(dir)
+		}
+		if err != nil {
+			cs.Inconc("native family: " + err.Error())
+			return
+		}
+		src, srcName, gIn, eIn, progDesc = nsrc, file, g, e, "native-circuit family: "+nsrc
+		cs.Count("sessions_stream_native_circuit", 1)
+	}
+	o := runStream(r, src, nil, gIn, eIn, yaoOpts{ot: (cs.Idx / 6) % 3, kind: 2, record: true, stallWin: 30 * time.Second, srcName: srcName})
+	desc := map[string]any{"mode": "streaming", "program": progDesc, "ot": o.otName, "g": clipStrings(gIn), "e": clipStrings(eIn)}
 	cs.SetSample(desc)
 	if pi := firstPanic(o.g, o.e); pi != nil || o.g.err != nil || o.e.err != nil {
 		// what was transmitted before the failure has been transmitted:
